@@ -287,9 +287,9 @@ void adapter_exec(Ev *ev)
             areas[i].base = (RegisterAddress)A[i].base + SH;
             areas[i].size = (RegisterOffset)A[i].size;
             areas[i].flags = (uint16_t)((A[i].rd ? REG_AF_READABLE : 0) | (A[i].wr ? REG_AF_WRITEABLE : 0) | (A[i].skip ? REG_AF_SKIP_DEFAULTS : 0));
-            if (A[i].kind == 0) {
+            if (A[i].kind == 0 || A[i].kind == 3) {
                 areas[i].mem = store[i];
-                areas[i].read = reg_mem_read;
+                areas[i].read = A[i].kind == 3 ? NULL : reg_mem_read;      /* kind 3: an area without a read function (write-only device) */
                 areas[i].write = A[i].hasw ? reg_mem_write : NULL;
             } else if (A[i].kind == 2) {
                 /* checksummed persistent storage at medium address 3 (CRC-16/ARC, 2 octets), valid all-zero image to start with */
